@@ -1,6 +1,7 @@
 from registry_common import COMMON_ASSUME
 
 ENTRY = dict(
+        prop_modules=["C08", "C08Lifetime"],
         title="Set/confirm/retry: requested value only, bounded attempts, truthful result",
         design_ref="DESIGN.md section 6 / C08",
         technique="Lean 4 theorems over all event histories of the set/confirm/retry machine SetM (call, report, clock advance, timer, executor answer) "
@@ -13,12 +14,17 @@ ENTRY = dict(
             "(the tracking flag is read once per attempt and may change during the call: a set request made while it is off is followed by exactly one re-read, "
             "one made while it is on by none), `refresh_iff_tracked` / `refresh_iff_untracked` (its corollaries for a constant flag), "
             "`true_sound` (True only after a report != previous value received while the call ran), `false_sound` (False only after exactly `retries` set requests "
-            "and only stale reports), `nothing_after_return`, and `holds`: the executable statement C08.spec (a monitor that sees only events and outputs) accepts every observation of the machine. The machine is tied to parameter.py and the four parameter subclasses by running both on generated histories "
+            "and only stale reports), `nothing_after_return`; over the parameter's LIFETIME (machine SetL = every running call is a one-call machine stepping on the shared fields; any number of sequential or overlapping calls): `rejected_call_inert`, `tx_value_each_call`, `tx_count_each_call`, `only_running_calls_transmit`, `sequential_call_is_one_call`, `quiet_after_return`, `true_sound_each_call`, `false_sound_each_call`, `overlap_true_unsound` (what does not hold); and `holds`: the executable statement C08.spec (a monitor that sees only events and outputs) accepts every observation of the machine. The machine is tied to parameter.py and the four parameter subclasses by running both on generated histories "
             "(random; exhaustive words over {stale, confirming, third value, timer[, executor answer]} for retries 0..3) with reports entering through "
             "device.handle_frame(<parameters response bytes>), and C08.spec is evaluated by the Lean driver on every implementation observation."),
         level_note="Trusted: Lean kernel; SetM <-> parameter.py tie is differential (event histories under the virtual loop); asyncio (sleep, Queue, tasks) exercised, not modelled. "
                    "The display->raw front of set() is tied through the C17/C06 model: the rig calls set(<display value>) on scaled rows and the requested raw value is Lean's toRaw.",
         clauses={
+            "LIFETIME, a rejected call (no-op / out of range) in any state, also while other calls run, transmits nothing and changes no state": "theorem (rejected_call_inert)",
+            "LIFETIME, overlapping calls: every set request carries the value of the call that transmits it, at most its own `retries`, and only calls still in their loop transmit": "theorem (tx_value_each_call, tx_count_each_call, only_running_calls_transmit)",
+            "LIFETIME, sequential calls: every one-call clause holds per call, with the value held before THAT call": "theorem (sequential_call_is_one_call + quiet_after_return reduce each call to the one-call machine; true_sound_each_call, false_sound_each_call)",
+            "LIFETIME, overlapping calls: True/False soundness does NOT hold (shared previous value)": "theorem (overlap_true_unsound, a kernel-checked counterexample run); not judged for overlapping calls",
+            "LIFETIME, judge of multi-call observations (C08L.specL)": "executable judge applied to the implementation; one-call segments are judged by C08.spec (holds proved), the lifetime wrapper itself is tied by correspondence only",
             "set requests carry the requested value and no other": "theorem (tx_value) + correspondence (incl. late encoding of queued requests)",
             "at most `retries` set requests": "theorem (tx_count)",
             "one per `timeout` interval": "theorem (tx_spacing, tx_spacing_exact)",
